@@ -70,9 +70,18 @@ def judge(case):
 
 # ---- (a) port types -------------------------------------------------------------------------
 
+def padding(i):
+    """SIZE: unrelated declarations between the interesting ones, so that the document has 20+ declarations and the
+    same-named ones are never adjacent."""
+    return [['enum', f'Pad{i}a', ['P']], ['ns', [f'PadNs{i}'], [['extern', f'Pad{i}b', 'int'], ['subint', f'Pad{i}c', 0, 1]]],
+            ['extern', f'Pad{i}d', 'long'], ['enum', f'Pad{i}e', ['Q']]]
+
+
 def model_a(case):
     doc = []
-    for scope, kind in zip(case.get('scopes', SCOPES), case['assign']):
+    for i, (scope, kind) in enumerate(zip(case.get('scopes', SCOPES), case['assign'])):
+        if case.get('pad'):
+            doc += padding(i)
         if kind == 'real':
             doc += nest(scope, [['interface', 'X', [], [['Ev', 'in', ['void'], []], ['Ov', 'out', ['void'], []]]]])
         elif kind == 'decoy':
@@ -112,7 +121,9 @@ def judge_a(case):
 
 def model_b(case):
     doc = []
-    for scope, kind in zip(case.get('scopes', SCOPES), case['assign']):
+    for i, (scope, kind) in enumerate(zip(case.get('scopes', SCOPES), case['assign'])):
+        if case.get('pad'):
+            doc += padding(i)
         if kind == 'real':
             doc += nest(scope, [['extern', 'X', f'verif::T_{scope_tag(scope)}']])
         elif kind == 'decoy':
@@ -284,6 +295,12 @@ def cases():
                 yield {'kind': 'b', 'assign': list(assign), 'scope': scope, 'spell': spell, 'mc': True}
                 if scope == ['A', 'B']:
                     yield {'kind': 'b', 'assign': list(assign), 'scope': scope, 'spell': spell, 'sem': 'STS'}
+    # SIZE: the same with 25 unrelated declarations interleaved (referring scope A.B)
+    for assign in itertools.product(KIND3, repeat=5):
+        for spell in SPELL_X:
+            yield {'kind': 'a', 'assign': list(assign), 'scope': ['A', 'B'], 'spell': spell, 'dir': 'provides',
+                   'sem': 'MTS', 'pad': True}
+            yield {'kind': 'b', 'assign': list(assign), 'scope': ['A', 'B'], 'spell': spell, 'pad': True}
     # the referring scope A.B written as ONE multi-identifier namespace element: the intermediate scope A is still on
     # the chain
     for assign in itertools.product(KIND3, repeat=5):
